@@ -88,6 +88,38 @@ theorem unpack_len_eq_size (ps : Nat) (d : Def) (hwf : d.wf ps = true) (hm : d.m
   obtain ⟨_, _, h3⟩ := defRT ps data d hwf hm pos v n m true h rfl
   exact h3 L.size (layout_eq_abi ps d hm L hL).1
 
+/-! ## unpack reads the C layout -/
+
+/-- **Unpacking reads each field from exactly the C layout.**  For a fixed-size definition (one the
+    C ABI reference lays out), `unpack` at `pos` succeeds exactly when the reference decoder does, and
+    returns its value: every member decoded from the bytes at `pos +` its ABI offset (arrays at the
+    ABI stride, nested aggregates recursively, bit-field parts from their storage unit), with
+    `len(instance)` the ABI size, the data mask the reference mask (members at their offsets, padding
+    zero) — and no LEB128 caveat (`canonical = true`). -/
+theorem unpack_reads_layout (ps : Nat) (d : Def) (hwf : d.wf ps = true) (hm : d.modelled ps = true)
+    (L : Lay) (hL : refDef ps d = some L) (data : Bytes) (pos : Nat) :
+    unpackDef ps data pos d
+      = (refDecodeDef ps (data.drop pos) d).map (fun v => (v, L.size, refMaskDef ps d, true)) :=
+  defRef ps data d hwf hm L hL pos
+
+/-- fixed-size definitions: `pack (unpack bytes)` is the original `size` bytes with the padding
+    (as given by the ABI reference) zeroed — in particular the inner padding is kept in place -/
+theorem pack_unpack_fixed (ps : Nat) (d : Def) (hwf : d.wf ps = true) (hm : d.modelled ps = true)
+    (L : Lay) (hL : refDef ps d = some L) (data : Bytes) (pos : Nat) (v : Val) (n : Nat) (m : Bytes) (c : Bool)
+    (h : unpackDef ps data pos d = some (v, n, m, c)) :
+    packDef ps d v = some (canon (refMaskDef ps d) (data.drop pos)) ∧ n = L.size ∧
+      (refMaskDef ps d).length = L.size := by
+  have href := unpack_reads_layout ps d hwf hm L hL data pos
+  rw [h] at href
+  cases hd : refDecodeDef ps (data.drop pos) d with
+  | none => rw [hd] at href; simp at href
+  | some v' =>
+    rw [hd] at href
+    simp only [Option.map_some, Option.some.injEq, Prod.mk.injEq] at href
+    obtain ⟨rfl, rfl, rfl, rfl⟩ := href
+    obtain ⟨h1, h2⟩ := pack_unpack ps d hwf hm data pos v L.size (refMaskDef ps d) h
+    exact ⟨h1, rfl, h2⟩
+
 /-! ## LEB128 -/
 
 open Amoco.Leb128
@@ -134,6 +166,8 @@ example : refDef 8 exCI = some { size := 8, align := 4, offs := [0, 4] } := by d
 
 example : (unpackDef 8 exData 0 exCI).map (fun r => (r.2.1, r.2.2.1, r.2.2.2))
     = some (8, [0xff, 0, 0, 0, 0xff, 0xff, 0xff, 0xff], true) := by decide
+
+example : refMaskDef 8 exCI = [0xff, 0, 0, 0, 0xff, 0xff, 0xff, 0xff] := by decide
 
 /-- the padding bytes `ff ff ff` come back as zeros, everything else verbatim -/
 example : (unpackDef 8 exData 0 exCI).bind (fun r => packDef 8 exCI r.1)
